@@ -43,6 +43,9 @@ CLAIMED['C05'] = ("reference-model monitor: tree model round trip, strict OGC-BN
 CLAIMED['C06'] = ("runtime monitor: encoding/json as independent syntax/shape referee on MarshalJSON output, harness model of the format's forced losses for the round trip, concrete-type decode matrix, grammar-generated documents with a decision model, Feature/FeatureCollection round trips compared as encoding/json values",
   "Exploration by runtime monitoring: thousands of valid geometries per run (7 types x 4 coordinate types, empty members, nested collections, all finite float64 classes) are marshalled, re-parsed generically for RFC 7946 shape, decoded by UnmarshalGeoJSON/json.Unmarshal into Geometry and every concrete type and compared with the image under the forced losses; grammar documents (positions of length 0..5, mixed dimensions, unknown types, nulls) and generated features are decoded and judged by the harness's model.",
   "forced-loss model is the harness's reading of the statement; documents with nulls/missing members are judged only for absence of panics", "DESIGN.md §3 C06")
+CLAIMED['C07'] = ("reference-model monitor: exact rational snapping oracle for decode(encode(g,p)), independent varint-level TWKB reader for size/bbox/id-list headers, header-only readers vs full decode, closed-world error monitor on MarshalTWKB",
+  "Exploration by runtime monitoring: thousands of valid geometries per run (7 types x 4 coordinate types, empty members, nested collections, ordinates k/10^q) are encoded under 8-16 draws of precisions (-8..7 / 0..7) and all 16 option subsets; the bytes are decoded by the library and by an independent reader and every ordinate is compared with the exactly rounded value; rejection families drive out-of-range precisions and mismatched ID lists.",
+  "half-way rounding cases within the stated margin accept either neighbour; rings that collapse under coarse precision are skipped and counted; ID lists are not generated where the format cannot express them", "DESIGN.md §3 C07")
 REASONS = {}
 hooks_commits = subprocess.run(['git','-C','/repo','log','--format=%h %s'],capture_output=True,text=True).stdout.splitlines()
 hook_commits = [l.split()[0] for l in hooks_commits if l.split(' ',1)[1].startswith('verif hook')]
